@@ -4,8 +4,9 @@
 From Coq Require Import String.
 From Coq Require Import List NArith ZArith Bool Arith Permutation.
 From Coq Require Import Init.Byte.
-From FFS Require Import Base.Res Base.Bytes AbiType.Syntax AbiType.Model Ffi.Model Ffi.Spec
-     Ffi.Proofs Ffi.ProofsSpec Ffi.ProofsRound Ffi.ProofsSig Ffi.ProofsOrder Ffi.ProofsRound3.
+From FFS Require Import Base.Res Base.Bytes AbiType.Syntax AbiType.Model Ffi.Model Ffi.Spec Ffi.SpecExact
+     Ffi.Proofs Ffi.ProofsSpec Ffi.ProofsRound Ffi.ProofsSig Ffi.ProofsOrder Ffi.ProofsRound3
+     Ffi.ProofsExact Ffi.ProofsNames Ffi.ProofsAbiExact Ffi.ProofsDescribed.
 Import ListNotations.
 Local Open Scope string_scope.
 
@@ -264,4 +265,243 @@ Example C20_per_parameter_nonvacuous :
   ConvertFFIEventDefinitionToABI (str "g") [good; good] = Ok (mkEntry EEvent (str "g") [x; x] []) /\
   is_ok (ConvertFFIMethodToABI (str "f") [good; bad] []) = false /\
   is_ok (ConvertFFIMethodToABI (str "f") [good] [good; bad]) = false.
+Proof. vm_compute. repeat split. Qed.
+
+(* 4. The accepted parameter schemas, exactly.  Vocabulary (Ffi/SpecExact.v):
+      [members_of s] the members a schema describes ("object": its properties; "array": the members of
+      its innermost element description, through [items] at every dimension; otherwise none);
+      [describes name s ap] ap is the parameter s describes under that name, valid at every level:
+      name = the name it stands under (parameter name / property key); type, internalType, indexed =
+      the details; one component per member, the member recorded at position z being component z,
+      described by its member schema under its key; and the ABI type parser accepts it ([parses], the
+      type grammar of C13, see 0e);
+      [json_type_declared s] the domain of the JSON type oracle of Spec.v: at every level that
+      describes a parameter the schema declares one JSON type ("type", or a "oneOf" with exactly one
+      alternative other than "string" -- the only form the FireFly base meta-schema admits).
+
+   4a. The converse of 2, read as "accepted => consistent", with what comes out (no guard; every
+       verdict, every decoded value): an accepted parameter passed the jsonschema compile, decoded to
+       a schema that is [consistent] -- at every level: details present, JSON type not at odds with the
+       Ethereum type, items at every dimension, member positions exactly 0..n-1 -- and the result is
+       the parameter that schema describes. *)
+Theorem C20_accepted_described :
+  forall p ap, convertFFIParam p = Ok ap ->
+    pi_verdict p = true /\
+    exists s, pi_unm p = Some (Some s) /\ consistent s = true /\ describes (pi_name p) s ap.
+Proof. exact accepted_described. Qed.
+Print Assumptions C20_accepted_described.
+
+(* 4b. The converse of 2, read as "consistent => accepted": a schema that passed the jsonschema
+       compile, is consistent and describes a valid parameter is accepted, with exactly that
+       parameter. *)
+Theorem C20_consistent_accepted :
+  forall p s ap,
+    pi_verdict p = true -> pi_unm p = Some (Some s) -> json_type_declared s ->
+    consistent s = true -> describes (pi_name p) s ap -> convertFFIParam p = Ok ap.
+Proof. exact consistent_accepted. Qed.
+Print Assumptions C20_consistent_accepted.
+
+(* 4c. 2 and its converse packaged: the exact characterisation of the accepted schemas and of the
+       result, and of the refused ones (an error, never a panic). *)
+Theorem C20_accepted_iff_consistent :
+  forall p s, pi_unm p = Some (Some s) -> json_type_declared s ->
+    (forall ap, convertFFIParam p = Ok ap <->
+                pi_verdict p = true /\ consistent s = true /\ describes (pi_name p) s ap) /\
+    ((exists e, convertFFIParam p = Err e) <->
+     ~ (pi_verdict p = true /\ consistent s = true /\ exists ap, describes (pi_name p) s ap)).
+Proof. intros p s U JD. split; [exact (accepted_iff_consistent p s U JD)|exact (rejected_iff p s U JD)]. Qed.
+Print Assumptions C20_accepted_iff_consistent.
+
+(* 4d. [describes] is not a restatement of the conversion's choice among several candidates: a
+       consistent schema describes at most one parameter. *)
+Theorem C20_described_unique :
+  forall s name a b,
+    json_type_declared s -> consistent s = true -> describes name s a -> describes name s b -> a = b.
+Proof. exact described_unique. Qed.
+Print Assumptions C20_described_unique.
+
+(* 4e. What [consistent] says, one clause per line ([members_of], [items_complete], [positions]:
+       SpecExact.v): details are present; the JSON type is not at odds with the Ethereum type; an
+       "array" schema describes its elements ([items] at every dimension); the member positions are a
+       permutation of 0..n-1; every member is present and consistent itself.  With 4a: every
+       parameter schema the conversion accepts has all five, at every depth. *)
+Theorem C20_consistent_spelled_out :
+  forall s, consistent s = true <->
+    (exists d, s_details s = Some d) /\
+    type_at_odds s = false /\
+    items_complete s = true /\
+    Permutation (map member_index (members_of s)) (positions (length (members_of s))) /\
+    Forall (fun km => exists m, snd km = Some m /\ consistent m = true) (members_of s).
+Proof. exact consistent_spelled. Qed.
+Print Assumptions C20_consistent_spelled_out.
+
+(* non-vacuity of 4: a two-member tuple schema with positions 1, 0 (one member through oneOf) meets
+   every hypothesis and converts to the members in position order; the guard of 4b/4c is needed (a
+   "oneOf" of "string" alone: consistent, describes uint256, refused) and so is the validity of the
+   Ethereum types inside [describes] (uint257: consistent, JSON type declared, refused); outside the
+   guard a schema with two alternatives besides "string" is still accepted (4a applies). *)
+Example C20_accepted_iff_nonvacuous :
+  let det t i := Some (mkDetails (str t) [] false i) in
+  let a := Schema (str "string") None (det "string" (Some 1%Z)) [] None in
+  let b := Schema [] (Some [str "string"; str "integer"]) (det "uint256" (Some 0%Z)) [] None in
+  let s := Schema (str "object") None (det "tuple" None) [(str "a", Some a); (str "b", Some b)] None in
+  let P n t cs := FParam (str n) (str t) [] false cs in
+  let s1 := Schema [] (Some [str "string"]) (det "uint256" None) [] None in
+  let s2 := Schema (str "string") None (det "uint257" None) [] None in
+  let s3 := Schema [] (Some [str "string"; str "integer"; str "boolean"]) (det "bool" None) [] None in
+  (json_type_declared s /\ consistent s = true /\
+   convertFFIParam (mkPin (str "x") true (Some (Some s))) = Ok (P "x" "tuple" [P "b" "uint256" []; P "a" "string" []])) /\
+  (consistent s1 = true /\ describes (str "x") s1 (P "x" "uint256" []) /\
+   is_ok (convertFFIParam (mkPin (str "x") true (Some (Some s1)))) = false) /\
+  (consistent s2 = true /\ json_type_declared s2 /\
+   is_ok (convertFFIParam (mkPin (str "x") true (Some (Some s2)))) = false) /\
+  (declared_json_type s3 = None /\ is_ok (convertFFIParam (mkPin (str "x") true (Some (Some s3)))) = true).
+Proof.
+  cbv zeta. split; [|split; [|split]].
+  - split; [|split; vm_compute; reflexivity].
+    constructor; [vm_compute; discriminate|].
+    apply Forall_cons; [|apply Forall_cons; [|apply Forall_nil]]; cbn [snd]; intros m E; injection E as <-;
+      (constructor; [vm_compute; discriminate|apply Forall_nil]).
+  - split; [vm_compute; reflexivity|]. split; [|vm_compute; reflexivity].
+    apply (Describes (str "x") [] (Some [str "string"]) (mkDetails (str "uint256") [] false None) [] None []).
+    + reflexivity.
+    + constructor.
+    + eexists. vm_compute. reflexivity.
+  - split; [vm_compute; reflexivity|]. split; [|vm_compute; reflexivity].
+    constructor; [vm_compute; discriminate|apply Forall_nil].
+  - split; vm_compute; reflexivity.
+Qed.
+
+(* 5. Names do not matter.  [pin_rename p p'] (SpecExact.v): the same verdict and the same decoded
+      schema up to the parameter name and the property keys at every depth ([srename]; keys may even
+      repeat).  Then the two conversions have the same outcome -- Ok / the same error class -- and,
+      when Ok, results that are equal once every name is blanked ([unnamed]: types, internal types,
+      indexed flags, nesting); so have whole definitions (any entry name, parameters and returns),
+      and blanking names changes neither the entry's signature nor the helper's text.  The names
+      themselves are carried exactly: the result bears the parameter's name (member names = property
+      keys: [describes], 4a).  The escaping of names for the schema resource (fixes 305065f, 5469ed5)
+      is inside the verdict oracle, which the model computes under a fixed resource name. *)
+Theorem C20_names_irrelevant :
+  (forall p p', pin_rename p p' ->
+     rmap unnamed (convertFFIParam p) = rmap unnamed (convertFFIParam p')) /\
+  (forall name ps ps' rs rs', Forall2 pin_rename ps ps' -> Forall2 pin_rename rs rs' ->
+     rmap unnamed_entry (ConvertFFIMethodToABI name ps rs) = rmap unnamed_entry (ConvertFFIMethodToABI name ps' rs') /\
+     rmap unnamed_entry (ConvertFFIEventDefinitionToABI name ps) = rmap unnamed_entry (ConvertFFIEventDefinitionToABI name ps') /\
+     rmap unnamed_entry (ConvertFFIErrorDefinitionToABI name ps) = rmap unnamed_entry (ConvertFFIErrorDefinitionToABI name ps')) /\
+  (forall e, SignatureCtx (unnamed_entry e) = SignatureCtx e /\
+             ABIMethodToSignature (unnamed_entry e) = ABIMethodToSignature e) /\
+  (forall p ap, convertFFIParam p = Ok ap -> fp_name ap = pi_name p).
+Proof.
+  split; [exact rename_convert|]. split; [exact rename_definitions|].
+  split; [exact signature_strip|exact convert_name].
+Qed.
+Print Assumptions C20_names_irrelevant.
+
+(* non-vacuity: the same tuple schema under the names x / a,b and "y y" / b,b (a repeated key):
+   both convert, to different parameters that agree once names are blanked *)
+Example C20_names_nonvacuous :
+  let det t i := Some (mkDetails (str t) [] false i) in
+  let leaf t i := Some (Schema (str "string") None (det t (Some i)) [] None) in
+  let s := Schema (str "object") None (det "tuple" None) [(str "a", leaf "string" 1%Z); (str "b", leaf "bytes" 0%Z)] None in
+  let s' := Schema (str "object") None (det "tuple" None) [(str "b", leaf "string" 1%Z); (str "b", leaf "bytes" 0%Z)] None in
+  let p := mkPin (str "x") true (Some (Some s)) in
+  let p' := mkPin (str "y y") true (Some (Some s')) in
+  pin_rename p p' /\ is_ok (convertFFIParam p) = true /\ convertFFIParam p <> convertFFIParam p' /\
+  rmap unnamed (convertFFIParam p) = rmap unnamed (convertFFIParam p').
+Proof.
+  cbv zeta. split; [|split; [vm_compute; reflexivity|split; [vm_compute; discriminate|vm_compute; reflexivity]]].
+  unfold pin_rename. cbn. repeat split.
+Qed.
+
+(* 0c-bis. "Each resulting method, event and error": the interface that ConvertABIToFFI returns holds
+       nothing else than the conversions of the named entries of the ABI -- every method / event /
+       error in it is the conversion of a named function / event / error entry of the ABI and converts
+       back to that entry (the statement of 0a for it), and there are exactly as many as there are
+       such entries -- whatever order Go ranged over the maps in. *)
+Theorem C20_roundtrip_abi_each :
+  forall abi,
+  NoDup (map e_name (filter named abi)) ->
+  (forall e, In e abi -> valid_entry e) ->
+  forall fs evs ers,
+    Permutation fs (Functions abi) -> Permutation evs (Events abi) -> Permutation ers (Errors abi) ->
+    forall ffi, ConvertABIToFFI_ord fs evs ers = Ok ffi ->
+    (forall m, In m (f_methods ffi) ->
+       exists e, In e abi /\ IsFunction e = true /\ e_name e <> [] /\
+         convertABIFunctionToFFIMethod e = Ok m /\ m_name m = e_name e /\
+         forall pins rets, Forall2 faithful pins (m_params m) -> Forall2 faithful rets (m_returns m) ->
+           let e' := mkEntry EFunction (e_name e) (map norm (e_inputs e)) (map norm (e_outputs e)) in
+           ConvertFFIMethodToABI (m_name m) pins rets = Ok e' /\ SignatureCtx e' = SignatureCtx e) /\
+    (forall m, In m (f_events ffi) ->
+       exists e, In e abi /\ e_type e = EEvent /\ e_name e <> [] /\
+         convertABIEventToFFIEvent e = Ok m /\ m_name m = e_name e /\
+         forall pins, Forall2 faithful pins (m_params m) ->
+           let e' := mkEntry EEvent (e_name e) (map norm (e_inputs e)) [] in
+           ConvertFFIEventDefinitionToABI (m_name m) pins = Ok e' /\ SignatureCtx e' = SignatureCtx e) /\
+    (forall m, In m (f_errors ffi) ->
+       exists e, In e abi /\ e_type e = EError /\ e_name e <> [] /\
+         convertABIErrorToFFIError e = Ok m /\ m_name m = e_name e /\
+         forall pins, Forall2 faithful pins (m_params m) ->
+           let e' := mkEntry EError (e_name e) (map norm (e_inputs e)) [] in
+           ConvertFFIErrorDefinitionToABI (m_name m) pins = Ok e' /\ SignatureCtx e' = SignatureCtx e) /\
+    length (f_methods ffi) = length (filter (fun e => named e && IsFunction e) abi) /\
+    length (f_events ffi) = length (filter (fun e => named e && is_event e) abi) /\
+    length (f_errors ffi) = length (filter (fun e => named e && is_error e) abi).
+Proof. exact roundtrip_abi_each. Qed.
+Print Assumptions C20_roundtrip_abi_each.
+
+(* non-vacuity: a function, an event and an unnamed constructor give one method and one event *)
+Example C20_roundtrip_abi_nonvacuous :
+  let P n t := FParam (str n) (str t) [] false [] in
+  let abi := [mkEntry EFunction (str "f") [P "a" "uint256"] [P "r" "bool"];
+              mkEntry EEvent (str "g") [P "b" "bytes32"] [];
+              mkEntry EConstructor [] [P "c" "address"] []] in
+  NoDup (map e_name (filter named abi)) /\
+  match ConvertABIToFFI abi with
+  | Ok ffi => map m_name (f_methods ffi) = [str "f"] /\ map m_name (f_events ffi) = [str "g"] /\ f_errors ffi = []
+  | _ => False
+  end.
+Proof.
+  cbv zeta. split; [|vm_compute; repeat split].
+  cbn. repeat constructor; cbn; intuition discriminate.
+Qed.
+
+(* 4f. The described parameter is computable.  [described name s] (SpecExact.v): type, internalType,
+       indexed from the details, the members' own described parameters in position order;
+       [types_valid ap]: the ABI type parser accepts ap and every component at every depth.  For a
+       consistent schema, [describes] says no more and no less. *)
+Theorem C20_described_computed :
+  forall s name ap, consistent s = true ->
+    (describes name s ap <-> ap = described name s /\ types_valid (described name s) = true).
+Proof. exact describes_iff_described. Qed.
+Print Assumptions C20_described_computed.
+
+(* 4g. Hence 4c with a right-hand side that is a computation: a parameter schema is accepted exactly
+       when it passed the jsonschema compile, is consistent, and the Ethereum types of the parameter
+       it describes are valid; the result is that parameter.  The last part needs no guard. *)
+Theorem C20_accepted_decided :
+  (forall p s, pi_unm p = Some (Some s) -> json_type_declared s ->
+     (forall ap, convertFFIParam p = Ok ap <->
+                 pi_verdict p = true /\ consistent s = true /\
+                 types_valid (described (pi_name p) s) = true /\ ap = described (pi_name p) s) /\
+     is_ok (convertFFIParam p) = pi_verdict p && consistent s && types_valid (described (pi_name p) s)) /\
+  (forall p ap, convertFFIParam p = Ok ap ->
+     exists s, pi_unm p = Some (Some s) /\ ap = described (pi_name p) s /\ types_valid ap = true).
+Proof. split; [exact accepted_decided|exact accepted_is_described]. Qed.
+Print Assumptions C20_accepted_decided.
+
+(* non-vacuity of 4f/4g: the tuple schema of the Example of 4 (positions 1, 0): its described
+   parameter has the members in position order and valid types; uint257 is described but not valid *)
+Example C20_accepted_decided_nonvacuous :
+  let det t i := Some (mkDetails (str t) [] false i) in
+  let a := Schema (str "string") None (det "string" (Some 1%Z)) [] None in
+  let b := Schema [] (Some [str "string"; str "integer"]) (det "uint256" (Some 0%Z)) [] None in
+  let s := Schema (str "object") None (det "tuple" None) [(str "a", Some a); (str "b", Some b)] None in
+  let P n t cs := FParam (str n) (str t) [] false cs in
+  let s2 := Schema (str "string") None (det "uint257" None) [] None in
+  described (str "x") s = P "x" "tuple" [P "b" "uint256" []; P "a" "string" []] /\
+  consistent s = true /\ types_valid (described (str "x") s) = true /\
+  convertFFIParam (mkPin (str "x") true (Some (Some s))) = Ok (described (str "x") s) /\
+  described (str "x") s2 = P "x" "uint257" [] /\ consistent s2 = true /\
+  types_valid (described (str "x") s2) = false /\
+  is_ok (convertFFIParam (mkPin (str "x") true (Some (Some s2)))) = false.
 Proof. vm_compute. repeat split. Qed.
